@@ -24,7 +24,7 @@ from vmon.harness import CaseSkip
 PROP = "C08"
 RULE = ("case = (local space out of 19 class/symmetry pairs, MPS|MPO, N in 1..6 (7 for d=2; dense size <= 4096), start state kind "
         "(harness chain with random sector sets / random_mps|random_mpo / sum of 2-3 product states / a+a / GHZ-like with exact "
-        "ties), prefactor, program of 3-8 steps over canonize_, orthogonalize_site_ (+diagonalize_central_) + absorb_central_, "
+        "ties / graded: dominant state + product states with amplitudes 1e-3..1e-10 / harness chain with one bond graded 1..1e-9), prefactor, program of 3-8 steps over canonize_, orthogonalize_site_ (+diagonalize_central_) + absorb_central_, "
         "truncate_ (non-binding), observers (norm, Schmidt values, entropies), must-reject calls, and binding-truncation blocks "
         "(truncate_ or hand-driven sweep; option sets over D_total, tol, D_block, tol_block, truncate_multiplets), directions and "
         "normalize drawn per step); distinct = hash of (space, kind, N, start kind, bond sectors, program with options); "
@@ -51,6 +51,22 @@ BINDING = ({"D_total": 1}, {"D_total": 2}, {"D_total": 2}, {"D_total": 3}, {"D_t
            {"D_total": 2, "truncate_multiplets": True}, {"tol": 0.2, "truncate_multiplets": True})
 
 
+# cuts inside a tail of Schmidt values spanning many orders of magnitude (start kinds 'graded', 'graded-harness')
+TAIL = ({"tol": 1e-2}, {"tol": 1e-4}, {"tol": 1e-5}, {"tol": 1e-6}, {"tol": 1e-7}, {"tol": 1e-8}, {"tol": 1e-9}, {"tol": 3e-11},
+        {"D_total": 1}, {"D_total": 2}, {"D_total": 3}, {"D_total": 4}, {"D_total": 5}, {"D_total": 3, "tol": 1e-7},
+        {"tol_block": 1e-5}, {"tol_block": 1e-8}, {"D_block": 1}, {"D_block": 2}, {"tol": 1e-6, "truncate_multiplets": True})
+REL_W, ABS_W = 1e-6, 1e-12      # returned weights vs the true relative distance: |d - d_true| <= REL_W * d_true + ABS_W
+
+
+def rejection(ref, x):
+    """| ref - x <x|ref>/<x|x> | / |ref| : relative distance of ``ref`` from the ray of ``x`` (accurate to ~1e-16 absolute)."""
+    ref, x = np.asarray(ref).ravel(), np.asarray(x).ravel()
+    nx2 = float(np.vdot(x, x).real)
+    if nx2 == 0:
+        return 1.0
+    return R.nrm(ref - x * (np.vdot(x, ref) / nx2)) / R.nrm(ref)
+
+
 def plan(tier):
     if tier == "thorough":
         return {"cases": 12000, "shards": 16, "budget_s": 800}
@@ -66,7 +82,8 @@ def floors(tier):
          "binding:manual-sweep": 330, "identity:normalize=False": 330, "identity:normalize=True": 330,
          "cut_multiset_checks": 1200, "cut_multiset_binding": 160, "schmidt_cuts_compared": 1400, "entropies_compared": 1400,
          "norm_compared": 300, "is_canonical_checked": 600, "final_to_tensor_crosschecks": 500, "start:ghz": 45,
-         "start:doubled": 50, "start:sum-of-products": 50, "start:random": 50, "rank_deficient_cuts": 30, "tie_cuts": 50,
+         "start:doubled": 50, "start:graded": 60, "start:graded-harness": 25, "small_weight_truncations": 25,
+         "small_weight_local_truncations": 25, "weights_compared_relatively": 600, "local_weights_compared_relatively": 1200, "start:sum-of-products": 50, "start:random": 50, "rank_deficient_cuts": 30, "tie_cuts": 35,
          "kind:mpo": 120, "N=1": 30, "N=2": 150, "N=6": 60, "must_reject": 70}
     return {name: v * k for name, v in f.items()}
 
@@ -79,7 +96,14 @@ class Stop(Exception):
 
 def product_chain(rng, nprng, loc, N, kind, q, dtype, basis=False):
     """Bond-dimension-one harness chain of charge q; basis=True -> a single non-zero amplitude per site (basis state)."""
-    ch = R.gen_chain(rng, nprng, loc, N, kind, q=q, dtype=dtype, dmax=1, extra=0.0, density=1.0)
+    if loc.sym == "dense":
+        # gen_chain draws dense bonds of dimension 1..dmax+1; a product state needs dimension one
+        one = D.HLeg("dense", -1, [((), 1)])
+        legs = [one, loc.hleg(1), one.conj()] + ([loc.hleg(-1)] if kind == "mpo" else [])
+        sites = [D.gen_tensor(rng, nprng, "dense", legs=legs, n=(), dtype=dtype, density=1.0) for _ in range(N)]
+        ch = R.HChain(loc, kind, sites, q=())
+    else:
+        ch = R.gen_chain(rng, nprng, loc, N, kind, q=q, dtype=dtype, dmax=1, extra=0.0, density=1.0)
     if sum(len(h.blocks) for h in ch.sites) != N:
         # several physical blocks compatible with the backbone: keep one per site so that it is a product of sector vectors
         for h in ch.sites:
@@ -128,7 +152,8 @@ class Prog:
         q = zero if (kind == "mpo" and rng.random() < 0.7) else rng.choice(adm)
         self.q = q
         dtype = rng.choice(("float64", "complex128"))
-        how = rng.choice(("harness", "harness", "harness", "random", "sum-of-products", "doubled", "ghz"))
+        how = rng.choice(("harness", "harness", "harness", "random", "sum-of-products", "doubled", "ghz", "graded", "graded",
+                          "graded-harness"))
         if how == "random" and kind == "mpo" and q != zero:
             how = "harness"
         desc = None
@@ -151,6 +176,36 @@ class Prog:
                 ctx.count("random_start_zero_state_rejected")
                 raise CaseSkip
             desc = [sorted((list(t), d) for t, d in tD.items()) for tD in psi.get_bond_charges_dimensions()]
+        elif how == "graded":
+            # a dominant state plus product states with amplitudes 1e-3 .. 1e-10 (each part normalised): Schmidt spectra spanning
+            # many orders of magnitude, so that tol / D_total cut inside the tail and discard weights of 1e-12 .. 1e-6
+            base = R.gen_chain(rng, nprng, loc, N, kind, q=q, dtype=dtype, dmax=rng.choice((1, 1, 2)), extra=0.3)
+            parts = [(base, 1.0 / R.nrm(base.dense()))]
+            for _ in range(rng.choice((2, 3, 3, 4))):
+                ch = product_chain(rng, nprng, loc, N, kind, q, dtype, basis=rng.random() < 0.3)
+                amp = 10.0 ** (-rng.uniform(3, 10)) * rng.choice((1.0, -1.0, 1j if dtype == "complex128" else 1.0))
+                parts.append((ch, amp / R.nrm(ch.dense())))
+            psi = mps.add(*[p[0].to_yastn() for p in parts], amplitudes=[p[1] for p in parts])
+            desc = {"amplitudes": [abs(p[1]) * R.nrm(p[0].dense()) for p in parts], "bonds": [p[0].bond_desc() for p in parts]}
+        elif how == "graded-harness":
+            # one bond of a random chain gets graded sector weights 1 .. 1e-9
+            ch = R.gen_chain(rng, nprng, loc, N, kind, q=q, dtype=dtype, dmax=rng.choice((2, 3)), extra=0.9, density=1.0)
+            if N > 1:
+                j = rng.randrange(1, N)
+                grades = {}
+                h = ch.sites[j]
+                for t, _ in h.legs[0].sectors:
+                    grades[t] = 10.0 ** (-rng.choice((0, 0, 2, 3, 4, 5, 6, 7, 8, 9)))
+                if h.legs[0].sectors and all(g < 1 for g in grades.values()):
+                    grades[h.legs[0].sectors[0][0]] = 1.0
+                col = [10.0 ** (-rng.choice((0, 0, 0, 3, 5, 7, 9))) for _ in range(h.legs[0].dim)]
+                offs = h.legs[0].offsets()
+                for key, blk in list(h.blocks.items()):
+                    lo, hi = offs[key[0]]
+                    w = np.array(col[lo:hi]) * grades[key[0]]
+                    h.blocks[key] = blk * w.reshape((-1,) + (1,) * (blk.ndim - 1))
+            psi = ch.to_yastn()
+            desc = ch.bond_desc()
         elif how == "doubled":
             ch = R.gen_chain(rng, nprng, loc, N, kind, q=q, dtype=dtype, dmax=2)
             a = ch.to_yastn()
@@ -480,7 +535,7 @@ class Prog:
     def step_binding(self):
         rng, ctx = self.rng, self.ctx
         to, nz = rng.choice(("first", "last")), rng.random() < 0.5
-        opts = dict(rng.choice(BINDING))
+        opts = dict(rng.choice(TAIL if (self.how.startswith("graded") and rng.random() < 0.8) else BINDING))
         manual = rng.random() < 0.5
         psi0 = self.prepare_opposite(to)
         n0 = R.nrm(psi0)
@@ -515,6 +570,17 @@ class Prog:
             raise Stop
         keep = float(np.sqrt(max(0.0, 1 - delta ** 2)))
         self.isometry("truncate_", what, range(self.N), to)
+        # relative accuracy of the reported error (both normalisations): psi_t is a projection of psi0, so the distance of psi0
+        # from the ray of psi_t is the true relative truncation error -- also when it is 1e-12 .. 1e-6
+        d_true = rejection(psi0, psit)
+        ctx.count("weights_compared_relatively")
+        if 1e-12 < d_true < 1e-6:
+            ctx.count("small_weight_truncations")
+        if not ctx.margin("weight:relative", abs(delta - d_true), REL_W * d_true + ABS_W):
+            ctx.violation("discarded-weight:relative-accuracy:truncate_",
+                          f"{what}: returned discarded weight {delta!r}, true relative distance |psi0 - P psi0|/|psi0| = {d_true!r} "
+                          f"(relative deviation {abs(delta - d_true) / max(d_true, 1e-300):.2e})", self.witness())
+            raise Stop
         if nz:
             ov = np.vdot(psi0 / n0, psit)
             ctx.count("identity:normalize=True")
@@ -575,7 +641,7 @@ class Prog:
         if nb == 0 or na == 0:
             ctx.violation("cut:state-vanished", f"{what}: cut {cut}: norm before {nb}, after {na}", self.witness())
             raise Stop
-        thr = 1e-11
+        thr = 1e-14
         kept, disc, got = [], [], []
         for c in sorted(set(sb) | set(sa)):
             b = np.sort(np.asarray(sb.get(c, np.zeros(0))))[::-1] / nb
@@ -614,6 +680,15 @@ class Prog:
         if not ctx.margin("cut:local-weight", abs(dl - exp_dl), 1e-12):
             ctx.violation("discarded-weight:local", f"{what}: cut {cut}: diagonalize_central_ returned {dl!r}, the dense spectrum gives {exp_dl!r}",
                           self.witness())
+            raise Stop
+        d_true = rejection(before, after)
+        ctx.count("local_weights_compared_relatively")
+        if 1e-12 < d_true < 1e-6:
+            ctx.count("small_weight_local_truncations")
+        if not ctx.margin("cut:local-weight-relative", abs(dl - d_true), REL_W * d_true + ABS_W):
+            ctx.violation("discarded-weight:relative-accuracy:local",
+                          f"{what}: cut {cut}: diagonalize_central_ returned {dl!r}, true relative weight of the discarded part {d_true!r} "
+                          f"(relative deviation {abs(dl - d_true) / max(d_true, 1e-300):.2e})", self.witness())
             raise Stop
         # (4) norm bookkeeping of the local step
         if not nz and not ctx.margin("cut:norm-kept", abs(na - nb * nk), 1e-12 * nb):
